@@ -210,6 +210,9 @@ pub struct Case {
     pub link: usize,
     pub field: String,
     pub variant: usize,
+    /// thorough tier: a second mutation (link, field, variant) applied after the first one
+    #[serde(default)]
+    pub second: Option<(usize, String, usize)>,
 }
 
 pub fn base_networks() -> Vec<(String, Network)> {
@@ -674,8 +677,9 @@ impl Prop for C16 {
     fn level(&self) -> &'static str {
         "fault_enumeration"
     }
-    fn rule(&self, _tier: Tier) -> String {
-        "fault enumeration: 5 valid base networks (line x1/x2/x3, passing siding, Y merge; with/without flips, speed_set and speed_sets styles, 2..4 elevation points, optional/wrap-around headings, 0..2 catenary sections) x EVERY single mutation at EVERY link incl. the dummy: each index field set to every in-range index and to len, len+7, u32::MAX; length in {0, NaN, inf, -1, +1}; 14 elevation and 14 heading faults (drop first/last, shift ends, swap, duplicate, NaN/inf/-inf/-1 offsets, NaN/inf values, empty, single point); 16 speed faults (end<start, unsorted, duplicate pair, NaN/inf speed, bad offsets, empty, both/neither representation, plus two mutations that must stay valid); 12 catenary shapes (valid: one/two disjoint/abutting/three disjoint; invalid: overlapping, unsorted, end<start, negative/NaN power, outside the link); through ObjState::validate, Network::from_json and Network::from_yaml (from_file yaml/json for the base networks; the LEGACY file layout for the base networks and for every mutation of the speed_sets-style networks). Oracle: accept <=> independent reference predicate; a panic is a violation. distinct_nontrivial = distinct (mutation class, expected verdict) pairs.".into()
+    fn rule(&self, tier: Tier) -> String {
+        let pairs = if tier.is_thorough() { " PLUS every PAIR of such mutations (any two sites, any two variants; pairs whose second mutation cannot be applied to the already damaged link are skipped) on the bases line2 and line3-features, judged the same way (states = mutated networks judged)." } else { "" };
+        format!("{}{}", "fault enumeration: 5 valid base networks (line x1/x2/x3, passing siding, Y merge; with/without flips, speed_set and speed_sets styles, 2..4 elevation points, optional/wrap-around headings, 0..2 catenary sections) x EVERY single mutation at EVERY link incl. the dummy: each index field set to every in-range index and to len, len+7, u32::MAX; length in {0, NaN, inf, -1, +1}; 14 elevation and 14 heading faults (drop first/last, shift ends, swap, duplicate, NaN/inf/-inf/-1 offsets, NaN/inf values, empty, single point); 16 speed faults (end<start, unsorted, duplicate pair, NaN/inf speed, bad offsets, empty, both/neither representation, plus two mutations that must stay valid); 12 catenary shapes (valid: one/two disjoint/abutting/three disjoint; invalid: overlapping, unsorted, end<start, negative/NaN power, outside the link); through ObjState::validate, Network::from_json and Network::from_yaml (from_file yaml/json for the base networks; the LEGACY file layout for the base networks and for every mutation of the speed_sets-style networks). Oracle: accept <=> independent reference predicate; a panic is a violation. distinct_nontrivial = distinct (mutation class, expected verdict) pairs.", pairs)
     }
     fn assumptions(&self) -> Vec<String> {
         vec![
@@ -705,7 +709,7 @@ impl Prop for C16 {
                     continue;
                 }
                 for variant in 0..nvar {
-                    let c = Case { base: bi, link: li, field: field.clone(), variant };
+                    let c = Case { base: bi, link: li, field: field.clone(), variant, second: None };
                     let mut m = net.clone();
                     if !apply(&mut m, &c) {
                         continue;
@@ -713,6 +717,8 @@ impl Prop for C16 {
                     ctx.describe(&serde_json::to_value(&c).unwrap());
                     let o = observe(&m);
                     ctx.evaluation();
+                    ctx.state();
+                    ctx.transition();
                     ctx.checks(3);
                     let class = class_of(&c, net.0.len());
                     ctx.sig(&format!("{}:{}", class, if o.ref_errors.is_empty() { "valid" } else { "invalid" }));
@@ -722,6 +728,63 @@ impl Prop for C16 {
                     ctx.checks(1);
                     for (k, w) in fails {
                         ctx.violation(&k, w, serde_json::to_value(&c).unwrap(), (li + variant) as u64);
+                    }
+                }
+            }
+        }
+        // thorough tier: EVERY PAIR of mutations on the two smallest feature-carrying bases -- a second fault must neither
+        // mask the first one (early exits) nor turn an error into a panic
+        if ctx.tier.is_thorough() {
+            for (bi, (bname, net)) in bases.iter().enumerate() {
+                if bname != "line2" && bname != "line3-features" {
+                    continue;
+                }
+                let mut muts: Vec<(usize, String, usize)> = vec![];
+                for (li, field, nvar) in mutation_sites(net) {
+                    for variant in 0..nvar {
+                        muts.push((li, field.clone(), variant));
+                    }
+                }
+                for a in 0..muts.len() {
+                    if !ctx.claim() {
+                        continue;
+                    }
+                    let first = Case { base: bi, link: muts[a].0, field: muts[a].1.clone(), variant: muts[a].2, second: None };
+                    let mut m1 = net.clone();
+                    if !apply(&mut m1, &first) {
+                        continue;
+                    }
+                    let class1 = class_of(&first, net.0.len());
+                    for b in (a + 1)..muts.len() {
+                        let sec = Case { base: bi, link: muts[b].0, field: muts[b].1.clone(), variant: muts[b].2, second: None };
+                        let mut m = m1.clone();
+                        // the second mutation meets a link the first one already damaged: where the mutation operator itself
+                        // cannot be applied (it indexes points that are gone) the pair does not exist
+                        match guarded(|| apply(&mut m, &sec)) {
+                            Ok(true) => {}
+                            _ => continue,
+                        }
+                        let c = Case { second: Some(muts[b].clone()), ..first.clone() };
+                        ctx.describe(&serde_json::to_value(&c).unwrap());
+                        let o = observe(&m);
+                        ctx.evaluation();
+                        ctx.state();
+                        ctx.transition();
+                        ctx.checks(3);
+                        let class = format!("pair:{}+{}", class1, class_of(&sec, net.0.len()));
+                        ctx.sig(&format!("pair:{}", if o.ref_errors.is_empty() { "valid" } else { "invalid" }));
+                        let mut fails = judge(&m, &o, &class);
+                        fails.extend(legacy_judge(&m, &o, &class));
+                        for (k, w) in fails {
+                            if ctx.wants_violation(&k, (a + b) as u64) {
+                                ctx.violation(&k, w, serde_json::to_value(&c).unwrap(), (a + b) as u64);
+                            } else {
+                                ctx.count_violation_only(&k);
+                            }
+                        }
+                    }
+                    if ctx.out_of_time() {
+                        break;
                     }
                 }
             }
@@ -742,7 +805,15 @@ impl Prop for C16 {
             v.extend(file_and_legacy(&m));
         } else {
             apply(&mut m, &c);
-            class = class_of(&c, bases[c.base].1 .0.len());
+            let n0 = bases[c.base].1 .0.len();
+            class = match &c.second {
+                None => class_of(&c, n0),
+                Some((l2, f2, v2)) => {
+                    let sec = Case { base: c.base, link: *l2, field: f2.clone(), variant: *v2, second: None };
+                    let _ = guarded(|| apply(&mut m, &sec));
+                    format!("pair:{}+{}", class_of(&c, n0), class_of(&sec, n0))
+                }
+            };
         }
         let o = observe(&m);
         v.extend(judge(&m, &o, &class));
